@@ -50,6 +50,11 @@ def handle : List Sexp → Option String
       some (match GenK.decodeLength (indef == "1") (← fo.toInt?) a with
         | .ok l => s!"ok {l}"
         | .error e => "err " ++ errName e)
+  | .atom "KCERBOOL" :: .atom ln :: args => do
+      let a ← intArgs args
+      some (match GenK.cerBool (← ln.toInt?) a with
+        | .ok l => s!"ok {l}"
+        | .error e => "err " ++ errName e)
   | .atom "KOIDDEC" :: args => do
       let a ← intArgs args
       some (out (GenK.oidDecode a))
